@@ -443,18 +443,20 @@ pub fn run_campaign(id: &'static str, property: &'static str, tier: Tier, seed: 
     let started = std::time::Instant::now();
     let m = meta(id, tier);
     let lanes = env::threads();
-    let per = m.cases.div_ceil(lanes as u32);
+    let scale: u32 = std::env::var("FXV_CASE_SCALE").ok().and_then(|s| s.parse().ok()).unwrap_or(100);
+    let per = (m.cases * scale / 100).max(lanes as u32).div_ceil(lanes as u32);
+    let asan_dir = std::env::var("FXV_ASAN_DIR").ok();
     let outdir = env::scratch_dir().join(format!("conc-{id}"));
     let _ = std::fs::create_dir_all(&outdir);
     let exe = std::env::current_exe().expect("exe");
     let mut children = Vec::new();
     for lane in 0..lanes {
-        let child = Command::new(&exe)
-            .args([id, "--worker", &seed.to_string(), &lane.to_string(), &per.to_string(), outdir.to_str().unwrap(), tier.name()])
-            .stdout(Stdio::piped())
-            .stderr(Stdio::null())
-            .spawn()
-            .expect("spawn worker");
+        let mut cmd = Command::new(&exe);
+        cmd.args([id, "--worker", &seed.to_string(), &lane.to_string(), &per.to_string(), outdir.to_str().unwrap(), tier.name()]).stdout(Stdio::piped()).stderr(Stdio::null());
+        if let Some(d) = &asan_dir {
+            cmd.env("ASAN_OPTIONS", format!("detect_leaks=0:abort_on_error=1:log_path={d}/asan-{id}-lane{lane}"));
+        }
+        let child = cmd.spawn().expect("spawn worker");
         children.push((lane, child));
     }
     let mut ev = Evidence::new(property, tier, seed, "exploration", m.rule);
@@ -528,6 +530,26 @@ pub fn run_campaign(id: &'static str, property: &'static str, tier: Tier, seed: 
             }
             if code == 0 {
                 code = 2;
+            }
+        }
+    }
+    if let Some(d) = &asan_dir {
+        if let Ok(rd) = std::fs::read_dir(d) {
+            for e in rd.flatten() {
+                let name = e.file_name().to_string_lossy().into_owned();
+                if name.starts_with(&format!("asan-{id}-")) {
+                    let report = std::fs::read_to_string(e.path()).unwrap_or_default();
+                    let head: String = report.lines().take(80).collect::<Vec<_>>().join("\n");
+                    let kind = report.lines().find(|l| l.contains("ERROR: AddressSanitizer")).unwrap_or("AddressSanitizer report").to_string();
+                    let doc = json!({"property": property, "engine": format!("conc:{id}"), "signature": "asan-report", "message": kind, "campaign": id, "seed": seed, "report": head});
+                    if !env::report_violation(property, "asan-report", &doc) {
+                        code = 1;
+                        ev.violations += 1;
+                        eprintln!("fxv: {property} ({id}): {kind}");
+                    }
+                    ev.set("failure", json!({"signature": "asan-report", "message": kind}));
+                    let _ = std::fs::remove_file(e.path());
+                }
             }
         }
     }
